@@ -564,18 +564,16 @@ def week_before_year1(case):
 
 
 def in_proved_family(case):
-    """STATISTIC ONLY (mirrors RRStripThm.coarse_guard_all / RRStripSubThm.sfam_all, without the fuel bound):
+    """STATISTIC ONLY (mirrors RRStripThm.coarse_guard_all / RRSubSpAll.sfam_sa, without the fuel bound):
     is a rule of the specification's domain covered by one of the loop theorems?"""
     if case.get("byeaster") is not None:
         return False
     if any(abs(n) > 53 for n in (case.get("byweekno") or [])):
         return False
     f = case["freq"]
-    if f in (0, 1, 3):
-        return True
     if f == 2:
         return not week_before_year1(case)
-    return not case.get("bysetpos")
+    return True        # YEARLY, MONTHLY, DAILY: every rule; sub-daily: every rule (rset's RRSubSpAll)
 
 
 def evaluate(case, oracle, model=None):
